@@ -52,7 +52,7 @@ def main():
         for f in os.listdir(tmp):
             if f.endswith('.go') and not f.endswith('_test.go'):
                 new = open(os.path.join(tmp, f)).read()
-                if new != open(os.path.join('/repo', f)).read():
+                if not os.path.exists(os.path.join('/repo', f)) or new != open(os.path.join('/repo', f)).read():
                     files[os.path.join('/repo', f)] = new
         out['files_changed'] = [os.path.basename(k) for k in files]
         ov = os.path.join(tmp, 'overlay.json')
